@@ -46,6 +46,9 @@ SHAPES = {
                              (4, 'Y', ['Id'], False, True, '', 'P', ['Id'], False, False, '')]),
     'comp_key': dict(classes={'A': ['Id', 'Code'], 'B': ['Id', 'A_Id', 'A_Code']},
                      assocs=[(8, 'B', ['A_Id', 'A_Code'], True, True, '', 'A', ['Id', 'Code'], False, True, '')]),
+    # identifying attribute of type INTEGER whose value may be 0 (a falsy but perfectly valid identifying value)
+    'int_key': dict(classes={'A': ['Id', 'N'], 'B': ['Id', 'A_N']}, types={'N': 'integer', 'A_N': 'integer'},
+                    assocs=[(9, 'B', ['A_N'], True, True, '', 'A', ['N'], False, True, '')]),
     'two_rels': dict(classes={'A': ['Id'], 'B': ['Id', 'A_Id', 'A2_Id']},
                      assocs=[(5, 'B', ['A_Id'], True, True, '', 'A', ['Id'], False, True, ''),
                              (6, 'B', ['A2_Id'], False, True, '', 'A', ['Id'], False, True, '')]),
@@ -80,7 +83,7 @@ NLIVE = 2 ** len(KINDS)        # one deletable instance (index 0) per class
 def mk():
     m = xtuml.MetaModel(xtuml.IntegerGenerator())
     for k, attrs in SH['classes'].items():
-        m.define_class(k, [(a, 'unique_id') for a in attrs])
+        m.define_class(k, [(a, SH.get('types', {}).get(a, 'unique_id')) for a in attrs])
     for (r, sk, skeys, sm, sc, sp, tk, tkeys, tm, tc, tp) in SH['assocs']:
         ass = m.define_association(r, sk, skeys, sm, sc, sp, tk, tkeys, tm, tc, tp)
         ass.formalize()
@@ -156,6 +159,9 @@ def check(ci: int, v0: int, v1: int) -> bool:
         if not ref_attr_of_id(k):
             for n, inst in enumerate(pools[k][:2]):
                 inst.Id = vals[n] * 4 + KINDS.index(k)
+    if SHAPE == 'int_key':
+        pools['A'][0].N = v0 - 1          # >= 0: the identifying value 0 is in the range
+        pools['A'][1].N = v1 - 1
     with notrace():
         pre = install(m, pools, c0, c1, dead)
     if pre is None:
